@@ -74,3 +74,52 @@ fn seeds(db: &SparqlDatabase) -> BTreeMap<(String, String, String), String> {
 }
 // alias so that a failed obligation of unit reencode finds its concrete input here
 #[test] fn w__reencode_term_id__any() { w__union__denotes_the_union_of_the_datasets(); }
+
+// ---- the text route to quoted-triple identifiers: encode_term_star / decode_any on nested terms -------------------------
+#[derive(Clone, Debug, PartialEq, Eq, PartialOrd, Ord)]
+enum TT { Iri(&'static str), Lit(&'static str), Q(Box<TT>, Box<TT>, Box<TT>) }
+fn written(t: &TT, style: usize) -> String {
+    match t {
+        TT::Iri(s) => format!("<{}>", s), TT::Lit(s) => format!("\"{}\"", s),
+        // (blank-free nesting such as `<<<<<a> ..` is tokenised differently by split_quoted_triple_content; that is text syntax,
+        //  not identifier management, and is left out here - see DESIGN.md section 7)
+        TT::Q(a, b, c) => match style { 0 => format!("<< {} {} {} >>", written(a, style), written(b, style), written(c, style)), 1 => format!("<< {} {} {}>>", written(a, style), written(b, style), written(c, style)), _ => format!("  <<   {}  {}   {} >> ", written(a, style), written(b, style), written(c, style)) },
+    }
+}
+fn decoded(t: &TT) -> String { match t { TT::Iri(s) | TT::Lit(s) => s.to_string(), TT::Q(a, b, c) => format!("<< {} {} {} >>", decoded(a), decoded(b), decoded(c)) } }
+fn structural(t: &TT, db: &SparqlDatabase) -> u32 {
+    match t {
+        TT::Iri(s) | TT::Lit(s) => db.dictionary.write().unwrap().encode(s),
+        TT::Q(a, b, c) => { let (x, y, z) = (structural(a, db), structural(b, db), structural(c, db)); db.quoted_triple_store.write().unwrap().encode(x, y, z) }
+    }
+}
+#[test] fn w__encode_term_star__nested_terms_are_identified_structurally() {
+    let leaves = vec![TT::Iri("http://e/a"), TT::Iri("http://e/p"), TT::Lit("two words")];
+    let mut level1 = Vec::new();
+    for a in &leaves { for b in &leaves { for c in &leaves { level1.push(TT::Q(Box::new(a.clone()), Box::new(b.clone()), Box::new(c.clone()))); } } }
+    let mut all: Vec<TT> = leaves.clone();
+    all.extend(level1.iter().cloned());
+    // depth 2: a quoted triple in each position
+    for (i, q1) in level1.iter().enumerate().filter(|(i, _)| i % 4 == 0) { let l = &leaves[i % 3];
+        all.push(TT::Q(Box::new(q1.clone()), Box::new(l.clone()), Box::new(l.clone())));
+        all.push(TT::Q(Box::new(l.clone()), Box::new(q1.clone()), Box::new(l.clone())));
+        all.push(TT::Q(Box::new(l.clone()), Box::new(l.clone()), Box::new(q1.clone())));
+        all.push(TT::Q(Box::new(q1.clone()), Box::new(q1.clone()), Box::new(level1[(i + 5) % level1.len()].clone())));
+    }
+    let db = SparqlDatabase::new();
+    let mut seen: BTreeMap<u32, TT> = BTreeMap::new();
+    for t in &all {
+        let want = structural(t, &db);
+        for style in 0..3 {
+            let text = written(t, style);
+            let id = db.encode_term_star(&text);
+            assert!(id == want, "encode_term_star({:?}) = {}, the structural identifier of that term is {}", text, id, want);
+        }
+        if let Some(other) = seen.get(&want) { assert!(other == t, "distinct terms {:?} and {:?} share identifier {}", decoded(other), decoded(t), want); }
+        seen.insert(want, t.clone());
+        for (id, u) in &seen {
+            let got = db.decode_any(*id);
+            assert!(got == Some(decoded(u)), "after {} terms: decode_any({}) = {:?}, the term encoded there is {:?}", seen.len(), id, got, decoded(u));
+        }
+    }
+}
